@@ -18,6 +18,7 @@ import (
 	"context"
 	"encoding/json"
 	"fmt"
+	"sync"
 	"time"
 
 	"github.com/pkg/errors"
@@ -69,6 +70,8 @@ func (r *resourceLockManager) GetResourceLock() resourcelock.Interface {
 }
 
 type resourceLock struct {
+	// mu guards record, lastVal and tso: the election loop writes them, request handlers read them through Describe
+	mu          sync.Mutex
 	store       storage.KvStorage
 	lockConfig  resourcelock.ResourceLockConfig
 	record      resourcelock.LeaderElectionRecord
@@ -92,7 +95,10 @@ func (r *resourceLock) Get() (*resourcelock.LeaderElectionRecord, error) {
 		return nil, err
 	}
 
-	return &r.record, nil
+	r.mu.Lock()
+	record := r.record
+	r.mu.Unlock()
+	return &record, nil
 }
 
 func (r *resourceLock) getRecord() (err error) {
@@ -106,10 +112,13 @@ func (r *resourceLock) getRecord() (err error) {
 		}
 		return err
 	}
-	r.lastVal = val
 	var record resourcelock.LeaderElectionRecord
-	if err := json.Unmarshal(val, &record); err != nil {
-		return err
+	unmarshalErr := json.Unmarshal(val, &record)
+	r.mu.Lock()
+	defer r.mu.Unlock()
+	r.lastVal = val
+	if unmarshalErr != nil {
+		return unmarshalErr
 	}
 	r.record = record
 	return nil
@@ -118,7 +127,10 @@ func (r *resourceLock) getRecord() (err error) {
 func (r *resourceLock) getTso() (err error) {
 	ctx, cancel := r.genContext(context.Background())
 	defer cancel()
-	r.tso, err = r.store.GetTimestampOracle(ctx)
+	tso, err := r.store.GetTimestampOracle(ctx)
+	r.mu.Lock()
+	r.tso = tso
+	r.mu.Unlock()
 	return err
 }
 
@@ -136,15 +148,21 @@ func (r *resourceLock) Create(ler resourcelock.LeaderElectionRecord) error {
 	if err != nil {
 		return err
 	}
+	tso, err := r.store.GetTimestampOracle(context.Background())
+	r.mu.Lock()
 	r.lastVal = lerBytes
-	r.tso, err = r.store.GetTimestampOracle(context.Background())
+	r.tso = tso
+	r.mu.Unlock()
 	return err
 }
 
 // Update implements resourcelock.Interface
 func (r *resourceLock) Update(ler resourcelock.LeaderElectionRecord) error {
 	klog.V(8).Info("[resource lock] update lock")
-	if r.tso == 0 {
+	r.mu.Lock()
+	tso, lastVal := r.tso, r.lastVal
+	r.mu.Unlock()
+	if tso == 0 {
 		return errors.New("endpoint not initialized, call get or create first")
 	}
 
@@ -154,7 +172,7 @@ func (r *resourceLock) Update(ler resourcelock.LeaderElectionRecord) error {
 	}
 
 	batch := r.store.BeginBatchWrite()
-	batch.CAS(r.electionKey, recordBytes, r.lastVal, 0)
+	batch.CAS(r.electionKey, recordBytes, lastVal, 0)
 	ctx, cancel := r.genContext(context.Background())
 	defer cancel()
 	err = batch.Commit(ctx)
@@ -162,7 +180,10 @@ func (r *resourceLock) Update(ler resourcelock.LeaderElectionRecord) error {
 		return err
 	}
 
-	r.tso, err = r.store.GetTimestampOracle(context.Background())
+	tso, err = r.store.GetTimestampOracle(context.Background())
+	r.mu.Lock()
+	r.tso = tso
+	r.mu.Unlock()
 	return err
 }
 
@@ -177,6 +198,8 @@ func (r *resourceLock) Identity() string {
 }
 
 func (r *resourceLock) Describe() string {
+	r.mu.Lock()
+	defer r.mu.Unlock()
 	if len(r.record.HolderIdentity) > 0 {
 		return fmt.Sprintf("%s,%d", r.record.HolderIdentity, r.tso)
 	}
